@@ -4,9 +4,10 @@
    region: rw = true) visits the original blocks of g in the same order and
    ends the same way.  Nothing else is in this file. *)
 From Coq Require Import ZArith List.
+Import ListNotations.
 From V Require Import Valid.Hier Valid.Walk Valid.FlatRegion Valid.Run.
 From Coq Require Import Lia.
-From V Require Import Model.Pipe Model.PipeBounded Model.PipeBounded4 Model.Graph Model.Edits Model.Edits2 Model.JoinPath Model.Refine Model.CbPath.
+From V Require Import Model.Pipe Model.PipeBounded Model.PipeBounded4 Model.Graph Model.Edits Model.Edits2 Model.JoinPath Model.Refine Model.CbPath Model.LoopEdit Model.LoopSpec Model.LoopPath.
 
 Theorem C01_checker_sound :
   forall rw g h, c01_check rw g h = true -> PathEq rw g h.
@@ -97,6 +98,45 @@ Theorem C01_header_unification_preserves_paths :
 Proof. intros g top new var preds Ss names cls g'. exact (insert_cb_keeps_walks g top new var preds Ss names cls g' false). Qed.
 Print Assumptions C01_header_unification_preserves_paths.
 
+(* loop rotation, for ALL graphs (no bound), loops with one header: the part of
+   loop_restructure_helper after the early return (model LoopEdit.loop_rotate, tied to the code by direct
+   calls compared order-exactly) keeps every walk.  For every flat graph whose targets exist, every head,
+   every list of distinct exits among the blocks, every list of distinct blocks to process (no branching
+   synthetic blocks, no declared back edges, distinct successors), every classification of arcs to the
+   head as back edges, fresh names for the assignment blocks, the latch and the exit branch, two fresh
+   control variables: from every original block, under every decision list, the flat walk of the rotated
+   graph visits the same original blocks in the same order and ends the same way *)
+Theorem C01_loop_rotation_preserves_paths :
+  forall g top hd exits todo isback latch sexit ev bv names g',
+    let needs := match exits with _ :: _ :: _ => true | _ => false end in
+    loop_rotate g hd [hd] exits todo false [] isback latch sexit ev bv names = Ok g' ->
+    (NoDup todo /\
+     forall p, In p todo -> exists b, efind g p = Some b /\ nonbranch b /\ e_be b = [] /\ NoDup (e_jt b) /\
+                                      (forall a, In a names -> ~ In a (e_jt b))) ->
+    (NoDup names /\
+     forall a, In a names -> efind g a = None /\ ~ In a todo /\ a <> latch /\ a <> sexit /\ a <> top) ->
+    efind g latch = None /\ latch <> top /\ ~ In latch todo ->
+    (needs = true -> efind g sexit = None /\ sexit <> latch /\ sexit <> top /\ ~ In sexit todo) ->
+    NoDup exits /\ (forall x, In x exits -> In x (ekeys g)) /\ ~ In hd exits ->
+    In hd (ekeys g) -> ~ In top (ekeys g) ->
+    (forall x b t, efind g x = Some b -> In t (e_jt b) -> In t (ekeys g)) ->
+    (ev <> bv /\ forall x b, efind g x = Some b ->
+        match e_kind b with
+        | EAssign a => forall p, In p a -> fst p <> ev /\ fst p <> bv
+        | EBranch _ v _ => v <> ev /\ v <> bv
+        | EPlain _ => True
+        end) ->
+    forall n e e' ds tr st,
+      (exists b, efind g n = Some b /\ e_kind b = EPlain 100) ->
+      E (Fl ev bv) e e' ->
+      WTrace (ehier top g) (resolve_flat (ehier top g)) false n e ds tr st ->
+      WTrace (ehier top g') (resolve_flat (ehier top g')) false n e' ds tr st.
+Proof.
+  intros g top hd exits todo isback latch sexit ev bv names g' needs.
+  exact (loop_rotate_keeps_walks g top hd exits todo isback latch sexit ev bv names g' false).
+Qed.
+Print Assumptions C01_loop_rotation_preserves_paths.
+
 (* the generic reason (Model/Refine.v): an edit keeps every walk when each old block keeps its kind and
    arity and each way of leaving it leads, through a bridge that only touches fresh variables, to the
    block it led to before *)
@@ -150,4 +190,45 @@ Proof.
   - intros s Hs. cbn in Hs |- *. intuition lia.
   - intros x b Hb. destruct (Hf x b Hb) as [[-> ->]|[[-> ->]|[[-> ->]|[-> ->]]]]; exact I.
   - vm_compute. reflexivity.
+Qed.
+
+(* non-vacuity of C01_loop_rotation_preserves_paths: the loop {2, 3} with head 2, left from 2 to 5 and
+   from 3 to 4 (two exits: an exit branch is needed), back edge 3 -> 2 *)
+Example C01_loop_rotation_example :
+  let g := [(1, mkE [2] [] (EPlain 100)); (2, mkE [3; 5] [] (EPlain 100)); (3, mkE [2; 4] [] (EPlain 100));
+            (4, mkE [] [] (EPlain 100)); (5, mkE [] [] (EPlain 100))] in
+  exists g', loop_rotate g 2 [2] [4; 5] [2; 3] false [] (fun _ _ => true) 30 31 7 8 [20; 21; 22; 23] = Ok g' /\
+    forall n e e' ds tr st,
+      (exists b, efind g n = Some b /\ e_kind b = EPlain 100) -> E (Fl 7 8) e e' ->
+      WTrace (ehier 99 g) (resolve_flat (ehier 99 g)) false n e ds tr st ->
+      WTrace (ehier 99 g') (resolve_flat (ehier 99 g')) false n e' ds tr st.
+Proof.
+  cbv zeta. eexists. split; [vm_compute; reflexivity|].
+  assert (Hf : forall x b, efind [(1, mkE [2] [] (EPlain 100)); (2, mkE [3; 5] [] (EPlain 100));
+                                  (3, mkE [2; 4] [] (EPlain 100)); (4, mkE [] [] (EPlain 100));
+                                  (5, mkE [] [] (EPlain 100))] x = Some b ->
+               (x = 1 /\ b = mkE [2] [] (EPlain 100)) \/ (x = 2 /\ b = mkE [3; 5] [] (EPlain 100)) \/
+               (x = 3 /\ b = mkE [2; 4] [] (EPlain 100)) \/ (x = 4 /\ b = mkE [] [] (EPlain 100)) \/
+               (x = 5 /\ b = mkE [] [] (EPlain 100))).
+  { intros x b. unfold efind. cbn [zassoc].
+    destruct (Z.eqb_spec x 1); [intros [= <-]; auto|]. destruct (Z.eqb_spec x 2); [intros [= <-]; auto|].
+    destruct (Z.eqb_spec x 3); [intros [= <-]; auto 6|]. destruct (Z.eqb_spec x 4); [intros [= <-]; auto 7|].
+    destruct (Z.eqb_spec x 5); [intros [= <-]; auto 8|discriminate]. }
+  apply (C01_loop_rotation_preserves_paths _ 99 2 [4; 5] [2; 3] (fun _ _ => true) 30 31 7 8 [20; 21; 22; 23]).
+  - vm_compute. reflexivity.
+  - split; [repeat constructor; cbn; intuition lia|].
+    intros p [<-|[<-|[]]].
+    + eexists. split; [reflexivity|]. split; [intros ? ? ?; discriminate|]. split; [reflexivity|].
+      split; [repeat constructor; cbn; intuition lia|]. intros a Ha. cbn in Ha |- *. intuition lia.
+    + eexists. split; [reflexivity|]. split; [intros ? ? ?; discriminate|]. split; [reflexivity|].
+      split; [repeat constructor; cbn; intuition lia|]. intros a Ha. cbn in Ha |- *. intuition lia.
+  - split; [repeat constructor; cbn; intuition lia|].
+    intros a Ha. cbn in Ha. destruct Ha as [<-|[<-|[<-|[<-|[]]]]]; (split; [reflexivity|]); cbn; intuition lia.
+  - split; [reflexivity|]. cbn. intuition lia.
+  - intros _. split; [reflexivity|]. cbn. intuition lia.
+  - split; [repeat constructor; cbn; intuition lia|]. split; [intros x Hx; cbn in Hx |- *; intuition lia|cbn; intuition lia].
+  - cbn. intuition lia.
+  - cbn. intuition lia.
+  - intros x b t Hb Ht. destruct (Hf x b Hb) as [[-> ->]|[[-> ->]|[[-> ->]|[[-> ->]|[-> ->]]]]]; cbn in Ht |- *; intuition lia.
+  - split; [lia|]. intros x b Hb. destruct (Hf x b Hb) as [[-> ->]|[[-> ->]|[[-> ->]|[[-> ->]|[-> ->]]]]]; exact I.
 Qed.
